@@ -412,6 +412,16 @@ func init() {
 						}
 					}
 				}
+				// the dispatch spelled through an accessor: p.is1Hit() { return p.normBits1Hit != 0 }
+				for _, b := range fn.Blocks {
+					for _, ins := range b.Instrs {
+						if call, ok := ins.(*ssa.Call); ok {
+							if _, isAcc := oneHitAccessor(c, call); isAcc {
+								oneHit = true
+							}
+						}
+					}
+				}
 				if len(postingsLoads) == 0 {
 					continue
 				}
@@ -427,6 +437,30 @@ func init() {
 						ifi, ok := b.Instrs[len(b.Instrs)-1].(*ssa.If)
 						if !ok {
 							continue
+						}
+						// accessor form: if p.is1Hit() / if !p.is1Hit()
+						{
+							cv, neg := ifi.Cond, false
+							for {
+								u, ok := cv.(*ssa.UnOp)
+								if !ok || u.Op != token.NOT {
+									break
+								}
+								neg = !neg
+								cv = u.X
+							}
+							if call, ok := cv.(*ssa.Call); ok {
+								if meansOneHit, isAcc := oneHitAccessor(c, call); isAcc {
+									// accessor true <=> 1-hit when meansOneHit; the general-encoding edge is the other one
+									oneHitEdgeIsTrue := meansOneHit != neg
+									if oneHitEdgeIsTrue {
+										zeroEdges = append(zeroEdges, b.Succs[1])
+									} else {
+										zeroEdges = append(zeroEdges, b.Succs[0])
+									}
+									continue
+								}
+							}
 						}
 						bin, ok := ifi.Cond.(*ssa.BinOp)
 						if !ok || (bin.Op != token.NEQ && bin.Op != token.EQL) {
@@ -834,6 +868,28 @@ func isFuncParamOf(v ssa.Value, fn *ssa.Function) bool {
 	}
 	_, isSig := p.Type().Underlying().(*types.Signature)
 	return isSig
+}
+
+// oneHitAccessor: call is p.acc() where acc is an in-package method of
+// PostingsList / PostingsIterator whose single result is normBits1Hit != 0
+// (meansOneHit = true) or normBits1Hit == 0 (false) of its receiver.
+func oneHitAccessor(c *Ctx, call *ssa.Call) (meansOneHit bool, ok bool) {
+	sc := call.Call.StaticCallee()
+	if sc == nil || !c.inRoot(sc) || sc.Blocks == nil || len(sc.Blocks) != 1 || sc.Signature.Recv() == nil || len(sc.Params) != 1 {
+		return false, false
+	}
+	ret, isRet := sc.Blocks[0].Instrs[len(sc.Blocks[0].Instrs)-1].(*ssa.Return)
+	if !isRet || len(ret.Results) != 1 {
+		return false, false
+	}
+	bin, isBin := ret.Results[0].(*ssa.BinOp)
+	if !isBin || (bin.Op != token.NEQ && bin.Op != token.EQL) {
+		return false, false
+	}
+	if k, isK := constUint(bin.Y); !isK || k != 0 || exprSig(bin.X, 0) != ".normBits1Hit" {
+		return false, false
+	}
+	return bin.Op == token.NEQ, true
 }
 
 // callersDispatchOneHit: fn reads the postings bitmap of a list it is handed
